@@ -381,6 +381,23 @@ def s_mkifaceG(e, x):
     return y
 
 
+def h_onEvent(P):
+    f = P.func("onEvent", params=[("a", "string")], results=["string"])
+    f.ret(["a"])
+    return "onEvent"
+
+
+def s_cbiface(e, x):
+    # a plain top-level function, referenced nowhere else, handed to an INTERFACE method whose call has no result;
+    # it is called back later through the same interface
+    cb = e.helper("onEvent", h_onEvent)
+    a = e.tmp("*busA"); e.f.newimp(a, "busA")
+    b = e.tmp("bus"); e.f.toiface(b, a, "bus", "busA")
+    t = e.tmp("func(string) string"); e.f.fnval(t, cb)
+    e.f.invoke([], b, "sub", [t])
+    y = e.out("S"); e.f.invoke([y], b, "fire", [x]); return y
+
+
 def s_twoifaces(e, x):
     # ONE concrete type converted to TWO different interfaces, a different method called through each
     a = e.tmp("*impA"); e.f.newimp(a, "impA")
@@ -952,6 +969,7 @@ STEPS = {
     "mkifaceV": ("S", "IF", "iface", mk_mkiface("valT")),
     "mkifaceG": ("S", "IF", "iface", s_mkifaceG),
     "twoifaces": ("S", "S", "iface", s_twoifaces),
+    "cbiface": ("S", "S", "iface", s_cbiface),
     "invoke": ("IF", "S", "iface", s_invoke),
     "ifaceput": ("S", "IF", "iface", s_ifaceput),
     "idcall": ("S", "S", "call", s_idcall),
